@@ -11,32 +11,37 @@ unnecessary-allocation rewrite, the dependency graph of dead_code.rs and dead_co
 `GluonModel.Generated.OptPipeline` (extracted from the Rust source on every run).
 Only property theorems live here; lemmas are in `GluonModel.Proofs.Dce`.
 
-FULL STATEMENT (not proved in this generality):
+FULL STATEMENT (proved for the dead-code-elimination pass; the allocation rewrite only for
+closure-free expressions):
 
     theorem optimize_correct (fuel : Nat) (e : Expr) (closed, well-typed module body) :
-        Allowed (run fuel e) (run fuel (Dce.optimize e))
+        Allowed (run fuel e) (run fuel (Dce.optimize e))      -- up to `VRel` on closures
 
-What is proved instead (ladder):
-  (i)  `dce_correct_partial`: for ANY used-set that is closed for `e` (`Dce.kept`), any behaviour of
-       the non-builtin calls (`call`), any pair of environments agreeing on the used names,
-       `dce used e` behaves like `e` up to `Allowed` — for expressions that define no closures
-       (`Dce.noRec`; imported functions, host functions, partial applications, records of
-       functions are all values of the environment and unrestricted).
-  (ii) that the used-set the real dependency graph computes is closed (`kept (usedBindings e) e`)
-       is NOT proved; the driver evaluates it on every core expression dumped from the real
-       compiler (payload `(kept true true)`), together with closure of the reachable set under
-       the graph's edges (`(closed true true)`).
-  Not proved: closures defined inside the optimised expression (`letRec`) and the
-  unnecessary-allocation rewrite; both are covered by the exact structural correspondence and by
-  the behavioural oracle on the real implementation only.
+What is proved:
+  (i)   `dce_correct`: for ANY used-set that is closed for `e` (`Dce.kept`), `dce used e` behaves
+        like `e` — full core language, closures included.  Closures carry code, so the two runs are
+        related by `VRel` (same value, closure bodies optimised); `dce_correct_observable` turns
+        this into plain equality for results and host-call arguments that contain no functions.
+  (ii)  `usedBindings_kept`: the used-set the dependency graph of dead_code.rs computes IS closed,
+        under two hypotheses on the expression that the driver evaluates on every core expression
+        dumped from the real compiler: `shapeOK` (what the AST→core translation guarantees about
+        matches) and `bindersCoherent` (all graph nodes of one bound symbol are reachable together;
+        implied by symbols being unique and well scoped, `coherent_of_unique`).
+  (iii) `dce_correct_usedBindings`: (i)+(ii) for whole module bodies and the real rule.
+  (iv)  `dce_correct_partial`: the abstract-caller version of (i) for closure-free expressions (any
+        behaviour of the non-builtin functions).
+  (v)   `unnecessaryAlloc_correct_partial` / `optimize_correct_partial`: see below.
 -/
 import GluonModel.OptCore
 import GluonModel.Dce
 import GluonModel.Proofs.Dce
+import GluonModel.Proofs.DceRel
+import GluonModel.Proofs.Graph
 import GluonModel.Generated.OptPipeline
 
 namespace GluonModel.Props.C04
-open GluonModel.OptCore GluonModel.Dce GluonModel.Proofs.Dce GluonModel.Generated
+open GluonModel.OptCore GluonModel.Dce GluonModel.Proofs.Dce GluonModel.Proofs.DceRel
+  GluonModel.Proofs.Graph GluonModel.Generated
 
 /-- The pipeline `optimize` runs at this commit is the one the model implements: the inliner is
     switched off, the passes are `optimize_unnecessary_allocation → (purity) → used_bindings →
@@ -67,12 +72,11 @@ def isWrong {α : Type} : Out α → Bool
     no closure definitions) makes no host call, whatever the environment and whatever the other
     functions do; it yields a value or stops with an arithmetic failure (or is stuck, which
     well-typed programs are not). -/
-theorem dropped_binding_is_quiet (call : Caller) (e : Expr) (hp : pureE e = true)
-    (hn : noRec e = true) (env : Env) :
+theorem dropped_binding_is_quiet (call : Caller) (e : Expr) (hp : pureE e = true) (env : Env) :
     (eval call env e).log = [] ∧
       ((eval call env e).out = .arith ∨ (eval call env e).out = .wrong ∨
         ∃ v, (eval call env e).out = .ok v) := by
-  obtain ⟨hl, ho⟩ := pure_quiet call e hp hn env
+  obtain ⟨hl, ho⟩ := pure_quiet call e hp env
   refine ⟨hl, ?_⟩
   rcases ho with hs | ⟨v, hv⟩
   · cases h : (eval call env e).out <;> simp_all [Skippable]
@@ -92,12 +96,80 @@ theorem dce_correct_partial (used : String → Bool) (call : Caller) (e : Expr)
     refine ⟨?_, l, hl⟩
     cases h : (eval call env e).out <;> simp_all [Skippable, isWrong]
 
-/-- The same for a whole module body run from the empty environment with the used-set of the
-    real rule, given the closure check the driver performs on every case. -/
+/-! ### Full language: closures -/
+
+/-- `Allowed` up to the value relation: the optimised run `r'` has the same outcome and the same
+    host calls as `r`, where a closure of `r'` is the closure of `r` with `dce`-optimised bodies;
+    or `r` stopped with an arithmetic failure and `r'` made the same calls up to that point. -/
+def AllowedRel (used : String → Bool) (r r' : R Value) : Prop :=
+  (OutRel (VRel used) r.out r'.out ∧ LRel used r.log r'.log) ∨
+  (r.out = .arith ∧ ∃ l1 l2, r'.log = l1 ++ l2 ∧ LRel used r.log l1)
+
+/-- The used-set computed by the dependency graph (dead_code.rs `DepGraph::used_bindings`, rule
+    as it is now) is closed for the expression: what `dce` drops with it is call-free, what it
+    keeps only reads used names.  Full language. -/
+theorem usedBindings_kept (e : Expr) (hs : shapeOK e = true) (hc : bindersCoherent e = true) :
+    kept (inList (usedBindings e)) e = true :=
+  usedWith_kept e hs hc
+
+/-- The fresh-binder formulation: symbols with a single graph node each. -/
+theorem usedBindings_kept_unique (e : Expr) (hs : shapeOK e = true) (hu : bindersUnique e = true) :
+    kept (inList (usedBindings e)) e = true :=
+  usedWith_kept e hs (coherent_of_unique e hu)
+
+/-- Dead-code elimination is correct for every closed used-set, for the whole core language
+    (closures defined in the expression included), for every budget of nested calls. -/
+theorem dce_correct (used : String → Bool) (fuel : Nat) (e : Expr) (hk : kept used e = true)
+    (hw : isWrong (run fuel e).out = false) :
+    AllowedRel used (run fuel e) (run fuel (dce used e)) := by
+  rcases run_rel fuel e hk with h | ⟨hs, l1, l2, hl, hll⟩
+  · exact Or.inl h
+  · right
+    refine ⟨?_, l1, l2, hl, hll⟩
+    cases h : (run fuel e).out <;> simp_all [Skippable, isWrong]
+
+/-- … with the used-set the real rule computes: no closure hypothesis left. -/
+theorem dce_correct_usedBindings (fuel : Nat) (e : Expr) (hs : shapeOK e = true)
+    (hc : bindersCoherent e = true) (hw : isWrong (run fuel e).out = false) :
+    AllowedRel (inList (usedBindings e)) (run fuel e)
+      (run fuel (dce (inList (usedBindings e)) e)) :=
+  dce_correct _ fuel e (usedBindings_kept e hs hc) hw
+
+/-- For closure-free module bodies the conclusion is plain equality (`Allowed`), whatever the
+    results contain. -/
 theorem dce_correct_partial_usedBindings (fuel : Nat) (e : Expr) (hn : noRec e = true)
-    (hk : kept (inList (usedBindings e)) e = true) (hw : isWrong (run fuel e).out = false) :
+    (hs : shapeOK e = true) (hc : bindersCoherent e = true)
+    (hw : isWrong (run fuel e).out = false) :
     Allowed (run fuel e) (run fuel (dce (inList (usedBindings e)) e)) :=
-  dce_correct_partial _ _ e hn hk [] [] (agree_refl _ _) hw
+  dce_correct_partial _ _ e hn (usedBindings_kept e hs hc) [] [] (agree_refl _ _) hw
+
+/-- What the host observes: when the original result and the arguments of its host calls contain
+    no functions, the optimised run is *equal* to it (or the permitted arithmetic skip). -/
+theorem dce_correct_observable (used : String → Bool) (fuel : Nat) (e : Expr)
+    (hk : kept used e = true) (hw : isWrong (run fuel e).out = false)
+    (hv : ∀ v, (run fuel e).out = .ok v → FirstOrder v) (hl : FirstOrderLog (run fuel e).log) :
+    Allowed (run fuel e) (run fuel (dce used e)) := by
+  rcases dce_correct used fuel e hk hw with ⟨ho, hlog⟩ | ⟨ha, l1, l2, h1, h2⟩
+  · left
+    have hlog' := lrel_firstOrder hlog hl
+    revert ho hlog' hv
+    cases run fuel e with
+    | mk o l =>
+      cases run fuel (dce used e) with
+      | mk o' l' =>
+        intro hv ho hlog'
+        simp only at hlog' ho hv
+        subst hlog'
+        cases o <;> cases o' <;> simp only [OutRel] at ho
+        · rename_i v v'
+          rw [vrel_firstOrder ho (hv v rfl)]
+        · rfl
+        · rw [ho]
+        · rfl
+        · rfl
+  · right
+    refine ⟨ha, l2, ?_⟩
+    rw [h1, lrel_firstOrder h2 hl]
 
 /-! ### The defect D2 (repaired by `fix:` 7751831) as a regression witness -/
 
@@ -128,7 +200,7 @@ theorem dce_old_rule_unsound :
     which therefore applies to it. -/
 theorem dce_now_rule_on_witness :
     Allowed (run 3 witness) (run 3 (dce (inList (usedBindings witness)) witness)) :=
-  dce_correct_partial_usedBindings 3 witness (by decide) (by decide) (by decide)
+  dce_correct_partial_usedBindings 3 witness (by decide) (by decide) (by decide) (by decide)
 
 /-! ### Non-vacuity -/
 
@@ -148,7 +220,7 @@ example : (match (run 3 arithWitness).out with | .arith => true | _ => false) = 
 example : (run 3 arithWitness).log.length = 0 := by decide
 example : (run 3 (dce (inList (usedBindings arithWitness)) arithWitness)).log.length = 1 := by decide
 example : Allowed (run 3 arithWitness) (run 3 (dce (inList (usedBindings arithWitness)) arithWitness)) :=
-  dce_correct_partial_usedBindings 3 arithWitness (by decide) (by decide) (by decide)
+  dce_correct_partial_usedBindings 3 arithWitness (by decide) (by decide) (by decide) (by decide)
 
 -- a dropped binding in the sense of `dropped_binding_is_quiet`
 example : pureE (.call (.ident "#Int/") (.cons (.const (.int 1)) (.cons (.const (.int 0)) .nil))) = true
@@ -156,8 +228,8 @@ example : pureE (.call (.ident "#Int/") (.cons (.const (.int 1)) (.cons (.const 
   decide
 
 /-- The original shape of D2, with a closure (`let r = { f = \x -> error "boom" } in let u = r.f 1
-    in 1`), outside the fragment of the theorem: evaluated directly.  Old rule: the failure is
-    lost; rule now: it is kept. -/
+    in 1`).  Old rule: the failure is lost; rule now: it is kept, and `dce_correct_usedBindings`
+    applies (its hypotheses hold for it). -/
 def closureWitness : Expr :=
   .letE "r" (.data "<record>" ["f"]
       (.cons (.letRec (.cons "lam" ["x"] (.call (.ident "error") (.cons (.const (.str "boom")) .nil)) .nil)
@@ -172,5 +244,12 @@ example : (match (run 4 (dce (inList (usedWith ruleOld closureWitness)) closureW
     | .ok _ => true | _ => false) = true := by decide
 example : (match (run 4 (optimize closureWitness)).out with | .user "boom" => true | _ => false) = true := by
   decide
+
+example : shapeOK closureWitness = true ∧ bindersCoherent closureWitness = true ∧
+    bindersUnique closureWitness = true ∧ isWrong (run 4 closureWitness).out = false := by decide
+example : AllowedRel (inList (usedBindings closureWitness)) (run 4 closureWitness)
+    (run 4 (dce (inList (usedBindings closureWitness)) closureWitness)) :=
+  dce_correct_usedBindings 4 closureWitness (by decide) (by decide) (by decide)
+example : shapeOK witness = true ∧ bindersCoherent witness = true := by decide
 
 end GluonModel.Props.C04
